@@ -38,6 +38,7 @@ type sched struct {
 	Disc    string   `json:"disconnect"` // none | leader@gated | follower@gated | leader@midbody | follower@yield
 	DiscWho int      `json:"disconnect_who"`
 	Evict   bool     `json:"evict_at_yield"`
+	Age     bool     `json:"age_at_yield"`     // the stored entry outlives its lifetime between the shared return and the callers' own re-Get
 	Slow    int      `json:"slow_reader"`      // client id of the slow reader, -1 none
 	Mid     bool     `json:"arrival_mid_body"` // the last overlapping client arrives between the response head and the store
 	Late    int      `json:"late_arrivals"`    // further clients, one after the other, after everybody else is done
@@ -240,7 +241,7 @@ func (e *env) runSchedule(sd sched) *result {
 	po.gateHead = true
 	firstKind := sd.script[0]
 	po.gateBody = firstKind == kCacheable || firstKind == kAbortBody
-	hold := sd.Evict || sd.Disc == "follower@yield"
+	hold := sd.Evict || sd.Age || sd.Disc == "follower@yield"
 	e.yieldMu.Lock()
 	e.yieldHold = hold
 	e.yieldRelease = make(chan struct{})
@@ -327,6 +328,11 @@ func (e *env) runSchedule(sd sched) *result {
 			}
 			act("Evict")
 		}
+		if sd.Age {
+			// not an action of the model: what the shared fetch returned stays what every caller is owed,
+			// however long the transfer took relative to the entry's lifetime
+			e.px.VerifCache().VerifAge(2 * time.Hour)
+		}
 		if sd.Disc == "follower@yield" {
 			if !e.disconnect(path, clients[sd.DiscWho]) {
 				note("server did not notice the disconnect of %d", sd.DiscWho)
@@ -375,7 +381,7 @@ func catalogue(r *emit.Rand, tier string, backend string) []sched {
 	add := func(s sched) {
 		s.Backend = backend
 		s.script = kindsOf(s.Script)
-		s.Name = fmt.Sprintf("%s/N%d/%s/%s/%s/evict=%v/slow=%d/mid=%v/late=%d", backend, s.N, s.KS, strings.Join(s.Script[:1], ""), s.Disc, s.Evict, s.Slow, s.Mid, s.Late)
+		s.Name = fmt.Sprintf("%s/N%d/%s/%s/%s/evict=%v/age=%v/slow=%d/mid=%v/late=%d", backend, s.N, s.KS, strings.Join(s.Script[:1], ""), s.Disc, s.Evict, s.Age, s.Slow, s.Mid, s.Late)
 		out = append(out, s)
 	}
 	for _, n := range ns {
@@ -431,6 +437,13 @@ func catalogue(r *emit.Rand, tier string, backend string) []sched {
 				bl = 40 + r.Intn(3000)
 			}
 			add(sched{N: n, KS: cb.ks, Script: script, Disc: "none", Evict: false, Slow: slow, BodyLen: bl})
+		}
+		for _, cb := range []combo{{"cold", "cacheable"}, {"stale", "304"}, {"stale", "cacheable"}} {
+			script := []string{cb.first}
+			for i := 0; i < n+1; i++ {
+				script = append(script, "cacheable")
+			}
+			add(sched{N: n, KS: cb.ks, Script: script, Disc: "none", Age: true, Slow: -1, BodyLen: 40 + r.Intn(3000)})
 		}
 		add(sched{N: n, KS: "fresh", Script: []string{"cacheable"}, Disc: "none", Slow: -1, BodyLen: 40 + r.Intn(3000)})
 		add(sched{N: n, KS: "fresh", Script: []string{"cacheable"}, Disc: "none", Slow: r.Intn(n), BodyLen: 10 << 20})
